@@ -452,7 +452,8 @@ func blockContainerLayout(context *layoutContext, box_ Box, bottomSpace pr.Float
 
 		if abort {
 			page_, _ := child.PageValues()
-			removePlaceholders(context, box.Children[skip:], absoluteBoxes, fixedBoxes)
+			// the children already laid out are cancelled too
+			removePlaceholders(context, append(append([]Box(nil), newChildren...), box.Children[skip:]...), absoluteBoxes, fixedBoxes)
 			for _, footnote := range newFootnotes {
 				context.unlayoutFootnote(footnote)
 			}
@@ -481,6 +482,8 @@ func blockContainerLayout(context *layoutContext, box_ Box, bottomSpace pr.Float
 	}
 
 	if bi := string(box.Style.GetBreakInside()); boxIsFragmented && avoidPageBreak(bi, context) && !pageIsEmpty {
+		// the whole box is moved to the next page, with the absolute and fixed boxes it contains
+		removePlaceholders(context, append(append([]Box(nil), newChildren...), box.Children[skip:]...), absoluteBoxes, fixedBoxes)
 		for _, footnote := range allFootnotes {
 			context.unlayoutFootnote(footnote)
 		}
@@ -667,6 +670,7 @@ func breakLine(context *layoutContext, box *bo.BoxFields, line *bo.LineBox, newC
 	if overOrphans < 0 && !pageIsEmpty {
 		// Reached the bottom of the page before we had
 		// enough lines for orphans, cancel the whole box.
+		removePlaceholders(context, line.Children, absoluteBoxes, fixedBoxes)
 		return true, false, resumeAt
 	}
 	// How many lines we need on the next page to satisfy widows
@@ -683,6 +687,7 @@ func breakLine(context *layoutContext, box *bo.BoxFields, line *bo.LineBox, newC
 	}
 	if needed > overOrphans && !pageIsEmpty {
 		// Total number of lines < orphans + widows
+		removePlaceholders(context, line.Children, absoluteBoxes, fixedBoxes)
 		return true, false, resumeAt
 	}
 	if needed != 0 && needed <= overOrphans {
